@@ -461,13 +461,31 @@ func (e *Explorer) finish(start time.Time) {
 		e.res.Violations = append(e.res.Violations, e.viol[k])
 	}
 	e.res.WallS = time.Since(start).Seconds()
+}
+
+// AddState lets a custom engine record a canonical state.
+func (e *Explorer) AddState(parts ...string) {
+	if e.states == nil {
+		e.states = map[uint64]struct{}{}
+	}
+	h := fnv.New64a()
+	for _, p := range parts {
+		h.Write([]byte(p))
+		h.Write([]byte{0})
+	}
+	e.states[h.Sum64()] = struct{}{}
+}
+
+// Finalize writes the set of distinct states next to the result (merged across shards by the runner).
+func (e *Explorer) Finalize(res *ShardResult) {
+	res.NStates = len(e.states)
 	if p := os.Getenv("VERIF_STATES"); p != "" {
 		buf := make([]byte, 0, 8*len(e.states))
 		for s := range e.states {
 			buf = binary.LittleEndian.AppendUint64(buf, s)
 		}
 		if err := os.WriteFile(p, buf, 0o644); err == nil {
-			e.res.StatesFile = p
+			res.StatesFile = p
 		}
 	}
 }
